@@ -119,8 +119,44 @@ func c07Cursor(c *Ctx) {
 	}
 	for _, b := range fn.Blocks {
 		for _, in := range b.Instrs {
-			if ret, ok := in.(*ssa.Return); ok && len(ret.Results) >= 2 {
-				visit(ret.Results[1])
+			if ret, ok := core.AsReturn(in); ok && len(ret.Results) >= 2 {
+				visit(core.Res(ret, 1))
+				// the cursor kept in a local cell (the function has a defer or closure): after a record was read,
+				// the next read or the return is reached only through a store of that record's timestamp (or 0)
+				if ld, isLoad := ret.Results[1].(*ssa.UnOp); isLoad {
+					if cell, isCell := ld.X.(*ssa.Alloc); isCell {
+						okStore := func(i2 ssa.Instruction) bool {
+							st, ok := i2.(*ssa.Store)
+							if !ok || st.Addr != ssa.Value(cell) {
+								return false
+							}
+							if ex, ok := st.Val.(*ssa.Extract); ok && ex.Tuple == ssa.Value(callV) && ex.Index == 1 {
+								return true
+							}
+							k, isC := core.ConstInt(st.Val)
+							return isC && k == 0
+						}
+						pt := core.PointOf(callV)
+						pt.Idx++
+						found, tr, _ := core.Reach(core.Query{From: []core.Point{pt}, Avoid: okStore, Target: func(i2 ssa.Instruction) bool {
+							if i2 == ssa.Instruction(callV) {
+								return true
+							}
+							rt, isRet := core.AsReturn(i2)
+							if !isRet {
+								return false
+							}
+							// the spilled form re-stores the loaded results right before the return: look at the load feeding it
+							_ = rt
+							return true
+						}})
+						nEdges++
+						if found {
+							// a path to a return that re-stores the cell's own value is fine only if a proper store came first: Reach already avoided those
+							bad = append(bad, "a path from the read of a record to the next read or the return does not store its timestamp: "+p.TraceString(tr))
+						}
+					}
+				}
 			}
 		}
 	}
@@ -200,23 +236,23 @@ func c07SkipOnExactHit(c *Ctx) {
 			callee := seek.Call.StaticCallee()
 			bad := false
 			for _, b := range callee.Blocks {
-				ret, ok := b.Instrs[len(b.Instrs)-1].(*ssa.Return)
+				ret, ok := core.AsReturn(b.Instrs[len(b.Instrs)-1])
 				if !ok || len(ret.Results) != 2 {
 					continue
 				}
-				fv, isC := core.ConstBool(ret.Results[0])
+				fv, isC := core.ConstBool(core.Res(ret, 0))
 				if !isC {
 					bad, why = true, "the seek's 'found' result is not a constant per return"
 					continue
 				}
 				// a return whose error comes from SeekStart (the too-late path) must say not found
 				if fv {
-					for _, l := range core.FlattenPhi(ret.Results[1]) {
+					for _, l := range core.FlattenPhi(core.Res(ret, 1)) {
 						if core.IsCallResult(l, -1, "(*querylog.qLogReader).SeekStart") {
 							bad, why = true, "the seek reports 'found' although it only moved to the start of the newest file"
 						}
 					}
-					if !core.IsNilConst(ret.Results[1]) {
+					if !core.IsNilConst(core.Res(ret, 1)) {
 						bad, why = true, "the seek reports 'found' together with an error"
 					}
 				}
@@ -581,7 +617,7 @@ func boundGuarded(fn *ssa.Function, x, bound ssa.Value, at ssa.Instruction) bool
 			return false
 		}
 		b, ok := call.Common().Value.(*ssa.Builtin)
-		return ok && b.Name() == "len" && len(call.Common().Args) == 1 && call.Common().Args[0] == x
+		return ok && b.Name() == "len" && len(call.Common().Args) == 1 && core.SameValue(call.Common().Args[0], x)
 	}
 	g, n := core.CondEdges(fn, func(a core.Atom) (bool, bool) {
 		switch {
